@@ -165,7 +165,8 @@ pub fn retrieve_less_version(less_path: PathBuf) -> (r: Option<usize>) { unimple
 /// (R3) std::process::Child reduced to "has been waited for"; ASSUMED: `wait` returns only after the child has exited,
 /// `try_wait` returns `Ok(Some(_))` only if it has
 #[verifier::external_body]
-pub struct Child { _p: u8 }
+pub struct ChildStdin { _p: u8 }
+pub struct Child { pub stdin: Option<ChildStdin>, pub id: u32 }
 impl Child {
     pub uninterp spec fn exited(&self) -> bool;
     #[verifier::external_body]
@@ -179,12 +180,11 @@ impl Child {
 #[verifier::external_body]
 pub struct ExStdout(std::io::Stdout);
 //@ type src/utils/bat/output.rs OutputType noderive
-//@ region src/utils/bat/output.rs OutputType@Drop::drop
-//@sig pub fn output_type_drop(this: &mut OutputType)
-//@from <<<^>>>
-//@to <<<let _ = command.wait(); }>>>
-//@rewrite <<<= *self {>>> => <<<= *this {>>>
-//@| ensures *final(this) matches OutputType::Pager(c) ==> c.exited(),  // @C18:delta.does.not.exit.before.the.pager.does
+impl OutputType {
+    // `impl Drop for OutputType`: the method is verified as an inherent one (same text)
+    //@ fn src/utils/bat/output.rs OutputType@Drop::drop
+    //@| ensures *final(self) matches OutputType::Pager(c) ==> c.exited(),  // @C18:delta.does.not.exit.before.the.pager.does
+}
 
 } // verus!
 fn main() {}
